@@ -119,7 +119,8 @@ def _alarm(*_a):
 def build_from(cfgd):
     return algos.build(cfgd["alg"], cfgd["vtype"], pop=cfgd["pop"], off=cfgd.get("off"), seed=cfgd["seed"],
                        constrained=cfgd.get("constrained", False), variator=cfgd.get("variator"),
-                       window=cfgd.get("window"), inject=cfgd.get("inject", 0), nobjs=cfgd.get("nobjs"), **cfgd.get("extra", {}))
+                       window=cfgd.get("window"), inject=cfgd.get("inject", 0), nobjs=cfgd.get("nobjs"), wrapper=cfgd.get("wrapper"),
+                       **cfgd.get("extra", {}))
 
 
 def pilot_boundaries(cfgd, nsteps=5):
@@ -139,8 +140,12 @@ def pilot_boundaries(cfgd, nsteps=5):
     return out
 
 
-def trace_run(cfgd, budgets):
-    """Run the configuration with the consecutive budgets; returns a dict with the log and the oracle's findings."""
+def trace_run(cfgd, budgets, cond="int"):
+    """Run the configuration with the consecutive budgets; returns a dict with the log and the oracle's findings.
+    cond: how the budget is handed to run(): "int" run(N) | "fresh" run(MaxEvaluations(N)), a new object per call |
+          "shared" ONE MaxEvaluations(N) object reused by all consecutive calls (budgets must then be equal)."""
+    from platypus import MaxEvaluations
+    shared_cond = MaxEvaluations(budgets[0]) if cond == "shared" else None
     tr = Tracer()
     restore = install(tr)
     findings = []        # (key, what)
@@ -210,7 +215,7 @@ def trace_run(cfgd, budgets):
             signal.signal(signal.SIGALRM, _alarm)
             signal.alarm(STEP_TIMEOUT_S)
             try:
-                alg.run(N, callback=callback)
+                alg.run(N if cond == "int" else (shared_cond if cond == "shared" else MaxEvaluations(N)), callback=callback)
             finally:
                 signal.alarm(0)
             stray_b, stray_c = tr.take()
@@ -327,6 +332,12 @@ def configs(ctx):
                 out.append({"alg": alg, "vtype": "binary", "pop": 3, "off": 2, "window": w, "seed": seedbase + len(out)})
             # restarts forced by max_window_size only; their extra batch is often EMPTY (evaluate_all([]) inside post_step)
             out.append({"alg": alg, "vtype": "real", "pop": 4, "off": 2, "window": [1, 3, 1, 2], "seed": seedbase + len(out)})
+        if alg in ("NSGAII", "EpsNSGAII"):
+            # the DEPRECATED wrapper form (platypus/deprecated.py) around the algorithm: the clauses are asserted on the WRAPPER (its nfe, its run())
+            for wr in ("atc", "epc"):
+                for w in ((1, [1, 3, 1, 2]) if not ctx.thorough else (1, 2, 3, [1, 3, 1, 2], [2, 4, 2, 20])):
+                    for vt in ("real", "binary") if isinstance(w, int) and w == 1 else ("real",):
+                        out.append({"alg": alg, "vtype": vt, "pop": 3 + (len(out) % 3), "off": 2, "window": w, "wrapper": wr, "seed": seedbase + len(out)})
         if alg == "MOEAD":
             out.append({"alg": alg, "vtype": "real", "pop": 3, "off": 3, "extra": {"update_utility": 2}, "seed": seedbase + len(out)})
             # MOEA/D: utility-based search on/off x weight generator (library default, normal boundary, a tiny user generator with 2-4
@@ -408,12 +419,15 @@ def classify(N, call):
     return "inside-step"
 
 
-def report(ctx, cfgd, budgets, res):
+def report(ctx, cfgd, budgets, res, cond="int"):
     for key, what in res["findings"]:
-        ctx.violation("%s:%s" % (cfgd["alg"], key),
-                      "%s pop=%s off=%s vtype=%s variator=%s seed=%s budgets=%r: %s" % (
-                          cfgd["alg"], cfgd["pop"], cfgd.get("off"), cfgd["vtype"], cfgd.get("variator"), cfgd["seed"], budgets, what),
-                      {"kind": "trace", "config": cfgd, "budgets": budgets, "finding": key})
+        ctx.violation("%s:%s" % (cfgd["alg"] + ("+" + cfgd["wrapper"] if cfgd.get("wrapper") else ""), key),
+                      "%s%s pop=%s off=%s vtype=%s variator=%s seed=%s budgets=%r (%s): %s" % (
+                          cfgd["alg"], "+deprecated wrapper " + cfgd["wrapper"] if cfgd.get("wrapper") else "", cfgd["pop"], cfgd.get("off"), cfgd["vtype"],
+                          cfgd.get("variator"), cfgd["seed"], budgets,
+                          {"int": "run(int)", "fresh": "run(MaxEvaluations(N)), new object per call",
+                           "shared": "the SAME MaxEvaluations object passed to every call"}[cond], what),
+                      {"kind": "trace", "config": cfgd, "budgets": budgets, "cond": cond, "finding": key})
 
 
 def run(ctx):
@@ -421,7 +435,7 @@ def run(ctx):
     lits, meta = [], []
     dist = {"per_algorithm": {}, "budget_relation": {}, "calls_per_trace": {1: 0, 2: 0, 3: 0}, "steps_total": 0,
             "batches_total": 0, "members_submitted": 0, "members_already_evaluated": 0, "restart_batches": 0,
-            "rejected_inputs": 0, "aborted": 0, "batches_listing_an_object_twice": 0, "warm_start_traces": 0, "warm_start_k_vs_population": {"k<pop": 0, "k=pop": 0, "k>pop": 0}, "empty_batches": 0, "sizes": {}}
+            "rejected_inputs": 0, "aborted": 0, "batches_listing_an_object_twice": 0, "warm_start_traces": 0, "condition_object": {}, "deprecated_wrapper_traces": 0, "deprecated_wrapper_restarts": 0, "warm_start_k_vs_population": {"k<pop": 0, "k=pop": 0, "k>pop": 0}, "empty_batches": 0, "sizes": {}}
     for cfgd in cfgs:
         try:
             bounds = pilot_boundaries(cfgd)
@@ -436,10 +450,21 @@ def run(ctx):
         if not bounds or any(b <= a for a, b in zip([0] + bounds, bounds)):
             # the pilot itself saw a step without progress: let the traced run report it
             bounds = [b for b in bounds if b > 0] or [max(cfgd["pop"], 1)]
-        for budgets in budget_sequences(ctx, bounds, ctx.scale(6 if cfgd.get("few_budgets") else 9, 40)):
-            res = trace_run(cfgd, budgets)
+        seqs = [(b, "int") for b in budget_sequences(ctx, bounds, ctx.scale(6 if cfgd.get("few_budgets") else 9, 40))]
+        # the budget handed over as a TerminationCondition object: a fresh one per call, and ONE object reused by 2-3 consecutive calls
+        tb = bounds[min(1, len(bounds) - 1)]
+        for n in sorted(set([tb, tb + 1] + ([max(1, tb - 1), bounds[0]] if ctx.thorough else []))):
+            seqs.append(([n, n, n], "shared"))
+        if cfgd.get("few_budgets") and not ctx.thorough:
+            seqs = seqs[:-1]
+        else:
+            seqs.append(([tb + 1, tb + 1], "shared"))
+            seqs.append(([tb, 0, tb + 1], "fresh"))
+        for budgets, cond in seqs:
+            res = trace_run(cfgd, budgets, cond)
             ctx.count()
-            report(ctx, cfgd, budgets, res)
+            dist["condition_object"][cond] = dist["condition_object"].get(cond, 0) + 1
+            report(ctx, cfgd, budgets, res, cond)
             if res["aborted"]:
                 if res["aborted"].startswith("rejected-input"):
                     dist["rejected_inputs"] += 1
@@ -474,13 +499,17 @@ def run(ctx):
                         nontrivial = nontrivial or ev > 0
                 if c["steps"] and c["nfe_end"] - c["nfe0"] > c["N"]:
                     nontrivial = True
-            if alg == "EpsNSGAII":
+            if alg == "EpsNSGAII" and not cfgd.get("wrapper"):
                 for c in calls:
                     dist["restart_batches"] += sum(1 for st in c["steps"] if len(st["batches"]) > 1)
+            if cfgd.get("wrapper"):
+                dist["deprecated_wrapper_traces"] += 1
+                for c in calls:
+                    dist["deprecated_wrapper_restarts"] += sum(1 for st in c["steps"] if len(st["batches"]) > 1)
             if nontrivial and any(c["steps"] for c in calls):
                 ctx.mark(repr((sorted((k, repr(v)) for k, v in cfgd.items()), budgets)))
-            lits.append(lit_case(alg, calls))
-            meta.append((cfgd, budgets))
+            lits.append(lit_case("EpsNSGAII" if cfgd.get("wrapper") else alg, calls))     # wrapper: NSGA-II step + optional restart batch
+            meta.append((cfgd, budgets, cond))
             if len(ctx.samples) < 3 and len(calls) > 1 and any(c["steps"] for c in calls):
                 ctx.sample({"config": cfgd, "budgets": budgets,
                             "nfe_per_step": [[st["nfe"] for st in c["steps"]] for c in calls],
@@ -501,7 +530,7 @@ def run(ctx):
     ctx.coverage["rejected_config_probe"] = zero_size_probe()
     ctx.rule = ("traces = every shipped algorithm x size configurations (1 where legal, odd sizes with two-child variators, offspring < parents, one-child and "
                 "three-child variators, warm starts through InjectedPopulation with k <, = and > population_size already-evaluated solutions (end-to-end clause: the "
-                "initialisation step may call the problem function at most submitted - consumed times and never with an injected solution's variables), constrained problem, eps-NSGA-II with short restart windows, MOEA/D with utility "
+                "initialisation step may call the problem function at most submitted - consumed times and never with an injected solution's variables), constrained problem, eps-NSGA-II with short restart windows, the deprecated wrapper forms AdaptiveTimeContinuation / EpsilonProgressContinuation around NSGA-II and eps-NSGA-II (clauses on the wrapper object), budgets given as int, as a fresh MaxEvaluations per call and as ONE MaxEvaluations object reused by 2-3 consecutive calls, MOEA/D with utility "
                 "updates) x budgets {0, 1, b_k-1, b_k, b_k+1 for the observed step boundaries b_k} x 1-3 consecutive run() calls; non-trivial = at least one step "
                 "and (more than one call, or an already-evaluated member was submitted, or the budget was overshot); distinct by (configuration, seed, budgets)")
     if lits:
@@ -509,18 +538,19 @@ def run(ctx):
                               shard=150, prelude="Open Scope nat_scope.")
         if bad is not None:
             ctx.obligation("correspondence:run-loop-trace-accepted(%d traces)" % len(lits), "correspondence", not bad,
-                           "model rejects traces %r; first: %r budgets=%r" % (bad[:10], meta[bad[0]][0] if bad else "", meta[bad[0]][1] if bad else ""))
+                           "model rejects traces %r; first: %r budgets=%r cond=%s" % (bad[:10], meta[bad[0]][0] if bad else "", meta[bad[0]][1] if bad else "",
+                                                                                       meta[bad[0]][2] if bad else ""))
             ctx.coverage["correspondence_cases"] = len(lits)
             ctx.coverage["correspondence_mismatches"] = len(bad)
             # search around each rejected trace: same configuration, neighbouring budgets and seeds, oracle only
             for i in bad[:5]:
-                cfgd, budgets = meta[i]
-                ctx.sample({"model_rejects": {"config": cfgd, "budgets": budgets}})
+                cfgd, budgets, cond = meta[i]
+                ctx.sample({"model_rejects": {"config": cfgd, "budgets": budgets, "cond": cond}})
                 for ds in range(3):
                     for db in (-1, 0, 1):
                         c2 = dict(cfgd, seed=cfgd["seed"] + ds)
                         b2 = [max(0, b + db) for b in budgets]
-                        report(ctx, c2, b2, trace_run(c2, b2))
+                        report(ctx, c2, b2, trace_run(c2, b2, cond), cond)
                         ctx.count()
 
 
@@ -541,9 +571,9 @@ def zero_size_probe():
 def replay(ctx, data):
     rp = data.get("replay", {})
     if rp.get("kind") == "trace":
-        res = trace_run(rp["config"], rp["budgets"])
+        res = trace_run(rp["config"], rp["budgets"], rp.get("cond", "int"))
         ctx.count()
-        report(ctx, rp["config"], rp["budgets"], res)
+        report(ctx, rp["config"], rp["budgets"], res, rp.get("cond", "int"))
         ctx.sample({"replayed": rp, "aborted": res["aborted"], "nfe_per_step": [[st["nfe"] for st in c["steps"]] for c in res["calls"]]})
     else:
         run(ctx)
